@@ -1,13 +1,24 @@
 from tools.drive import Unit
 
-UNITS = [
-    Unit(name="c19.add", props=["C19", "C15", "C14"], tu="asmjit/core/constpool.cpp", roots=["asmjit::ConstPool::add"],
-         stops=["asmjit::ConstPool::Tree::get", "asmjit::ConstPool::Tree::insert", "asmjit::ConstPool::Tree::new_node_t", "asmjit::Arena::alloc_oneshot"],
-         target="ConstPool_add", contracts="contracts/c19_constpool.h",
-         replace=["ConstPool_Tree_get", "ConstPool_Tree_insert", "ConstPool_Tree_new_node_t", "Arena_alloc_oneshot_ConstPool_Gap_"], unwind=18, quick_unwind=8, quick_unwindset=["ConstPool_add_wrapped_for_contract_checking.2:2", "ConstPool_add_wrapped_for_contract_checking.1:3"], object_bits=8, quick_defines=["VERIF_MAXCONST=8"], thorough_defines=["VERIF_MAXCONST=64"], timeout=1700,
-         kind="bounded", bound_note="at most one gap per size class and one spare gap record on entry; pool size <= 2^30; constant sizes <= 8 bytes (quick) / all sizes (thorough), contents symbolic",
-         trusted=["ConstPool::Tree::get/insert/new_node_t and Arena::alloc_oneshot<Gap> replaced by ASSUMED contracts (abstract set view of the red-black tree, 'NULL or fresh' allocator): not proved in this unit"]),
-]
+CP = "asmjit/core/constpool.cpp"
+STOPS = ["asmjit::ConstPool::Tree::get", "asmjit::ConstPool::Tree::insert", "asmjit::ConstPool::Tree::new_node_t", "asmjit::Arena::alloc_oneshot"]
+REPL = ["ConstPool_Tree_get", "ConstPool_Tree_insert", "ConstPool_Tree_new_node_t", "Arena_alloc_oneshot_ConstPool_Gap_"]
+TRUSTED = ["ConstPool::Tree::get/insert/new_node_t and Arena::alloc_oneshot<Gap> replaced by ASSUMED stubs (harness/c19_add.c) (abstract view of the red-black tree: "
+           "get returns NULL or a node placed by an earlier add of this size; new_node_t/alloc return NULL or a fresh record): not proved in this unit"]
+
+
+def add_unit(size, tiers):
+    return Unit(name="c19.add.%s" % ("size%d" % size if size else "invalid"), props=["C19", "C15", "C14"], tu=CP, roots=["asmjit::ConstPool::add"], stops=STOPS,
+                target="ConstPool_add", contracts="contracts/c19_constpool.h", harness="harness/c19_add.c", replay="replay/c19_add.cpp", dfcc=False, unwind=34, unwindset=["ConstPool_addGap.0:7"], object_bits=8, mem_gb=20, quick_defines=["NPER=1"],
+                defines=(["VERIF_CONSTSIZE=%d" % size] if size else []), tiers=tiers, timeout=1500, kind="bounded",
+                bound_note="pre-state: 0..2 registered gaps per size class (offsets symbolic, disjoint), 0..1 spare gap record, pool size <= 2^30; "
+                           + ("constant size %d, contents symbolic" % size if size else "every size that is not a power of two <= 64"),
+                trusted=TRUSTED)
+
+
+ALL = ("quick", "thorough")
+UNITS = [add_unit(0, ALL), add_unit(1, ("thorough",)), add_unit(2, ("thorough",)), add_unit(4, ("thorough",)),
+         add_unit(8, ("thorough",)), add_unit(16, ALL), add_unit(32, ("thorough",)), add_unit(64, ALL)]
 
 UNITS += [
     Unit(name="c19.reset", props=["C16", "C19"], tu="asmjit/core/constpool.cpp", roots=["asmjit::ConstPool::reset"], target="ConstPool_reset",
